@@ -13,7 +13,8 @@ package swarm
 // ... a matching remote is ever admitted to the swarm"):
 //   * no transport's Dial is ever invoked with a blocked peer, or with an address whose IP (labelled by
 //     construction, also for DNS names resolved by the swarm) matches a blocked address / subnet;
-//   * every transport Dial is preceded by InterceptPeerDial(p)=allow and InterceptAddrDial(p, that address)=allow;
+//   * (outcome class only, never a violation) whether every transport Dial was preceded by InterceptPeerDial(p)=allow
+//     and InterceptAddrDial(p, that address)=allow;
 //   * blocked peer, or every address blocked: the call fails, ConnsToPeer is empty, no Connected notification,
 //     Connectedness is not Connected; in general no connection of the swarm has a blocked remote address.
 // Not demanded: that unblocked things are dialled (asserted only as the non-vacuity baseline in rule state "none").
@@ -283,6 +284,7 @@ type c10OutObs struct {
 	Connected int
 	Hooks     string
 	Findings  [][2]string
+	Unhooked  []string
 	Infra     string
 }
 
@@ -373,11 +375,12 @@ func c10RunOutbound(t *testing.T, st c10State, forms []c10Form, f c10Form, comp 
 					okAddr = true
 				}
 			}
+			// not a demand of the statement (it only forbids dials to BLOCKED remotes): recorded as an outcome class
 			if !okPeer {
-				bad("transport-dial-without-InterceptPeerDial", "transport Dial(%s) although InterceptPeerDial never allowed the peer", d.Addr)
+				obs.Unhooked = append(obs.Unhooked, "transport-dial-not-preceded-by-allowing-InterceptPeerDial")
 			}
 			if !okAddr {
-				bad("transport-dial-without-InterceptAddrDial", "transport Dial(%s) although InterceptAddrDial never allowed that address", d.Addr)
+				obs.Unhooked = append(obs.Unhooked, "transport-dial-not-preceded-by-allowing-InterceptAddrDial")
 			}
 		}
 		// 2. admitted connections
@@ -474,6 +477,9 @@ loop:
 						cl := c10OutClass(st, f, comp.Addrs, o)
 						r.Outcome(cl)
 						r.Outcome("hooks-called-by-swarm-on-dial: " + o.Hooks)
+						for _, uh := range o.Unhooked {
+							r.Outcome(uh)
+						}
 						distinct[cl+"|"+f.Class+"|"+entry] = struct{}{}
 						if len(st.Rules) == 0 && len(comp.Addrs) == 0 && outcome == fxOK {
 							// non-vacuity baseline: without rules the address under test is dialled and the connection admitted
